@@ -247,6 +247,47 @@ inline void dumpLog(FILE* f)
 	pthread_mutex_unlock(&s.mu);
 }
 
+// writes one JSON line for the whole run with the events of kinds `kinds` grouped by object and, within an object,
+// by thread (program order preserved within a thread):
+// {"objs":[{"o":3,"ev":[[{"k":..,"v":..},...],[...]]},...]}
+inline long dumpLogByObject(FILE* f, const int* kinds, int nk)
+{
+	Sched& s = S();
+	pthread_mutex_lock(&s.mu);
+	long n = 0;
+	std::map<int, std::map<int, std::vector<size_t> > > g; // obj -> thread -> event indices
+	for (size_t i = 0; i < s.log.size(); i++)
+	{
+		bool want = false;
+		for (int k = 0; k < nk; k++) if (kinds[k] == s.log[i].kind) want = true;
+		if (want) g[s.log[i].obj][s.log[i].tid].push_back(i);
+	}
+	fprintf(f, "{\"objs\":[");
+	bool fo = true;
+	for (std::map<int, std::map<int, std::vector<size_t> > >::iterator o = g.begin(); o != g.end(); ++o)
+	{
+		fprintf(f, "%s{\"o\":%d,\"ev\":[", fo ? "" : ",", o->first);
+		fo = false;
+		bool ft = true;
+		for (std::map<int, std::vector<size_t> >::iterator t = o->second.begin(); t != o->second.end(); ++t)
+		{
+			fprintf(f, ft ? "[" : ",[");
+			ft = false;
+			for (size_t j = 0; j < t->second.size(); j++)
+			{
+				const Event& e = s.log[t->second[j]];
+				fprintf(f, "%s{\"k\":%d,\"v\":%ld}", j ? "," : "", e.kind, e.val);
+				n++;
+			}
+			fprintf(f, "]");
+		}
+		fprintf(f, "]}");
+	}
+	fprintf(f, "]}\n");
+	pthread_mutex_unlock(&s.mu);
+	return n;
+}
+
 // ---- harness API -------------------------------------------------------------------------------
 inline void install() { asl_verif_hook = hook; }
 
